@@ -109,6 +109,50 @@ def optLoop2 (E : Env) : TokV → List TokV → Bool → Bool → Except R (Bool
 termination_by _ toks _ _ => toks.length
 decreasing_by simp_wf; omega
 
+/-- loop state of `readRouteOpts`: its (named) results and the scanner -/
+abbrev T3 := Err × Bytes × Bytes × Bytes × Bytes × Bytes × Scanner × Bytes
+
+def M6.toT3 (m : M6) (e : Err) (s : Scanner) : T3 := (e, m.notPrefix, m.notRegex, m.notSub, m.prefix_, m.regex, s, m.sub)
+abbrev R3 := Bytes × Bytes × Bytes × Bytes × Bytes × Bytes × Err × Scanner
+def M6.result (m : M6) (e : Err) (s : Scanner) : R3 := (m.prefix_, m.notPrefix, m.sub, m.notSub, m.regex, m.notRegex, e, s)
+def badMsg : Token → String
+  | .optPrefix => "bad prefix option" | .optNotPrefix => "bad notPrefix option" | .optSub => "bad sub option"
+  | .optNotSub => "bad notSub option" | .optRegex => "bad regex option" | .optNotRegex => "bad notRegex option"
+  | _ => ""
+
+/-- one iteration of `readRouteOpts`' loop -/
+def step3 (m : M6) (e : Err) (s : Scanner) : Step (M6 × Err × Scanner) R3 :=
+  let t := s.Next.1
+  let s1 := s.Next.2
+  if t.Token = Token.EOF ∨ t.Token = Token.sep then .ret (m.result e s1)
+  else if t.Token = Token.Error then .ret (({} : M6).result (some "read the error token instead of one i recognize") s1)
+  else match mSet t.Token with
+    | none => .ret (({} : M6).result (some "unrecognized option '%s'") s1)
+    | some f =>
+      if s1.Next.1.Token != Token.word then .ret (({} : M6).result (some (badMsg t.Token)) s1.Next.2)
+      else .next (f s1.Next.1.Value m, e, s1.Next.2)
+def tupleStep3 (st : T3) : Step T3 R3 :=
+  match st with
+  | (err, notPrefix, notRegex, notSub, prefix_, regex, s, sub) =>
+    stepMap (fun (x : M6 × Err × Scanner) => x.1.toT3 x.2.1 x.2.2) (step3 { prefix_, notPrefix, sub, notSub, regex, notRegex } err s)
+
+/-- the route options (`addRoute <type> <key> [option…]  <dest>…`, `modRoute`): read until the double-blank separator or the end -/
+def routeOpts : List TokV → M6 → R3
+  | [], m => m.result none ⟨[]⟩
+  | t :: r, m =>
+    if t.Token = Token.EOF ∨ t.Token = Token.sep then m.result none ⟨r⟩
+    else if t.Token = Token.Error then ({} : M6).result (some "read the error token instead of one i recognize") ⟨r⟩
+    else match mSet t.Token with
+      | none => ({} : M6).result (some "unrecognized option '%s'") ⟨r⟩
+      | some f =>
+        match r with
+        | [] => ({} : M6).result (some (badMsg t.Token)) ⟨[]⟩
+        | v :: r2 =>
+          if v.Token != Token.word then ({} : M6).result (some (badMsg t.Token)) ⟨r2⟩
+          else routeOpts r2 (f v.Value m)
+termination_by toks => toks.length
+decreasing_by simp_wf; omega
+
 def isFn (t : Token) : Bool :=
   t == Token.sumFn || t == Token.avgFn || t == Token.minFn || t == Token.maxFn || t == Token.lastFn || t == Token.deltaFn ||
   t == Token.countFn || t == Token.deriveFn || t == Token.stdevFn
